@@ -22,6 +22,21 @@ def policy_of(o):
     return o.get(".NS") if o is not None else None
 
 
+def scope_policy(e):
+    """The naming policy an element lives under: that of the tree it belongs to (its outermost ancestor), which is what
+    decides the legal form of its identifier - not whatever '.NS' entry the element itself happens to carry."""
+    seen = 0
+    while seen < 8:
+        k = kind_of(e)
+        parent = (e.netlist if k == "library" else e.library if k == "definition" else
+                  e.definition if k in ("port", "cable") else e.parent if k == "instance" else None)
+        if parent is None:
+            return policy_of(e)
+        e = parent
+        seen += 1
+    return policy_of(e)
+
+
 def same(key, a, b, ns):
     if not isinstance(a, str) or not isinstance(b, str):
         return a == b
@@ -102,7 +117,7 @@ class C10(Prop):
     assumptions = ["a parent's policy is its own '.NS' entry (docs/source/reference/NamespaceManager.rst)",
                    "identifiers under the EDIF policy compare case-insensitively; names never fold case",
                    "the '.NS' entry itself is not edited by the workload"]
-    runs = {"quick": 2200, "thorough": 80000}
+    runs = {"quick": 4000, "thorough": 80000}
 
     def configure(self, rng, tier):
         cfg = swarm_config(rng, base={"name": 6.0, "build": 6.0, "attach": 4.0, "remove": 3.5, "bulk_remove": 1.0,
@@ -136,7 +151,7 @@ class C10(Prop):
             if op == "set_name" and v is None and ".NAME" in e:
                 return ""  # this is a delete
             k = kind_of(e)
-            if key == "EDIF.identifier" and policy_of(e) == "EDIF" and not edif_identifier_legal(v):
+            if key == "EDIF.identifier" and scope_policy(e) == "EDIF" and not edif_identifier_legal(v):
                 return "illegal"
             if k in CHILD_ACC:
                 back, acc = CHILD_ACC[k]
